@@ -450,6 +450,53 @@ for _m in (0, 1, 2):
     for _vc in (False, True):
         _make_chain(_m, _vc)
 
+# The States Language's "complex retry scenarios": a Retrier's parameters apply across all visits to THAT Retrier -
+# each Retrier counts its own retries (spec example: errors A, B, C, B, B against Retriers [A|B: max 2] and [C: max 5]).
+PER_RETRIER_SEQS = [["EA", "EB"], ["EA", "EB", "EA"], ["EB", "EA"], ["EA", "EA"], ["EA", "EB", "EB"], ["EA"], []]
+
+
+def _per_retrier(which, si: int, c0: int, c1: int, c2: int):
+    from vf import s2
+    seq = PER_RETRIER_SEQS[stubs.cint(si, 0, len(PER_RETRIER_SEQS) - 1)]
+    retry = [{"ErrorEquals": ["EA"], "IntervalSeconds": 1, "MaxAttempts": 1, "BackoffRate": 2.0},
+             {"ErrorEquals": ["EB"], "IntervalSeconds": 3, "MaxAttempts": 1, "BackoffRate": 2.0}]
+    asl = {"StartAt": "T", "States": {"T": scn.task("f1", ResultPath="$.t", End=True, Retry=retry)}}
+    n = [0]; times = []
+
+    def w(req):
+        n[0] += 1
+        times.append(stubs.CLOCK.now - 1_700_000_000.0)
+        if n[0] <= len(seq):
+            return {"errorType": seq[n[0] - 1], "errorMessage": "m"}
+        return {"ok": 1}
+    # reference: one counter per Retrier
+    used = {"EA": 0, "EB": 0}; t = 0.0; want_times = [0.0]; outcome = ("SUCCEEDED", None)
+    for e in seq:
+        if used[e] >= 1:
+            outcome = ("FAILED", e); break
+        t += {"EA": 1.0, "EB": 3.0}[e] * (2.0 ** used[e]); used[e] += 1
+        want_times.append(t)
+
+    def chk(run, inst, mon):
+        got = s2.result_of()
+        if got[0] != outcome[0] or (outcome[0] == "FAILED" and got[1] != outcome[1]):
+            return "C07 [per-retrier] errors %s against Retriers [EA: 1 attempt] [EB: 1 attempt]: outcome %r, expected %r (each Retrier counts its own retries)" % (seq, got, outcome)
+        if times != want_times:
+            return "C07 [per-retrier] task requested at %s, expected %s" % (times, want_times)
+        return ""
+    return s2.run_scenario(asl, {"x": 1}, [c0, c1, c2], {"f1": w}, which, "STANDARD", None, extra_check=chk, max_steps=160, fast=True)
+
+
+@condition(timeout={"quick": 300, "thorough": 900}, functions=scn.ENGINE_FUNCS + ["handle_error: retry counting over two Retriers"],
+           note="States Language, 'Complex retry scenarios': a Retrier's parameters apply across all visits to that Retrier (one retry count per Retrier)")
+def per_retrier_counts(si: int, c0: int, c1: int, c2: int) -> str:
+    """
+    requires: 0 <= si < len(PER_RETRIER_SEQS)
+    ensures: _ == ""
+    """
+    return _per_retrier({"C07", "C02", "C03", "C09"}, si, c0, c1, c2)
+
+
 scn.register(globals(), {"C07", "C02", "C03", "C09"}, ["fan_retry_inner_retry"],
              {"fan_retry_inner_retry": [("_k%d" % k, "kind == %d" % k) for k in (0, 1)]})
 
